@@ -99,3 +99,24 @@ pub fn run_anchor(input: &str) -> Outcome {
     if got == exp && err == exp_err { Outcome { fails: false, observed: "agree".into(), expected } }
     else { Outcome { fails: true, observed: format!("lexing {:?} gives lexemes (token, byte) {:?}, error {:?}; with `^` meaning start of line: {:?}, error {:?}", input, got, err, exp, exp_err), expected } }
 }
+
+// ---------------------------------------------------------------- DefaultLexeme (unit c09_lexeme)
+/// A lexeme made from (tok_id, start, len), plain or faulty, read back through the Lexeme trait.
+pub fn run_lexeme(tok_id: u32, start: usize, len: usize, faulty: bool) -> Outcome {
+    use lrpar::Lexeme;
+    crate::note_case("c09_lexeme", json!({"tok_id": tok_id, "start": start, "len": len, "faulty": faulty}));
+    let expected = format!("tok_id {} span {}..{} faulty {}", tok_id, start, start + len, faulty);
+    let r = catch_unwind(AssertUnwindSafe(|| {
+        let l = if faulty { lrlex::DefaultLexeme::<u32>::new_faulty(tok_id, start, len) } else { lrlex::DefaultLexeme::<u32>::new(tok_id, start, len) };
+        format!("tok_id {} span {}..{} faulty {}", l.tok_id(), l.span().start(), l.span().end(), l.faulty())
+    }));
+    let observed = match r { Ok(s) => s, Err(_) => "panic".to_string() };
+    Outcome { fails: observed != expected, observed, expected }
+}
+pub fn search_lexeme() -> Option<Value> {
+    for t in [0u32, 1, 7, u32::MAX] { for s in [0usize, 1, 5, 1 << 40] { for l in [0usize, 1, 3, 1 << 20] { for f in [false, true] {
+        let o = run_lexeme(t, s, l, f);
+        if o.fails { return Some(witness("c09_lexeme", json!({"tok_id": t, "start": s, "len": l, "faulty": f}), &o)); }
+    } } } }
+    None
+}
